@@ -86,8 +86,29 @@ def join(us):
     return "".join(u[1] + u[2] for u in us)
 
 
-MUTATIONS = ["delete", "insert", "duplicate", "swap", "replace_class", "truncate", "unbalance", "splice"]
-MUT_WEIGHTS = [5, 5, 3, 3, 6, 1, 3, 2]
+MUTATIONS = ["delete", "insert", "duplicate", "swap", "replace_class", "truncate", "unbalance", "splice", "widen",
+             "bad_escape"]
+MUT_WEIGHTS = [5, 5, 3, 3, 6, 1, 3, 2, 4, 2]
+
+# 2-, 3- and 4-byte UTF-8 characters (letters, symbols, CJK, emoji, combining mark, astral letter)
+WIDE = {2: ["é", "ü", "ö", "ß", "Ω", "ж", "\u0301"], 3: ["✓", "中", "€", "日", "\u200b"], 4: ["\U0001f680", "\U0001f389", "\U00010348"]}
+BAD_ESCAPES = ["\\q", "\\x41", "\\ö", "\\0", "\\u{1F600}", "\\'", "\\ "]
+
+
+def widen_positions(text):
+    """Offsets of ASCII letters that lie inside string literals, identifiers/keywords or comments."""
+    pos, i = [], 0
+    for cls, t in lex(text):
+        if cls in ("string", "ident", "keyword", "comment"):
+            pos.extend(i + k for k, ch in enumerate(t) if ch.isascii() and ch.isalpha())
+        i += len(t)
+    return pos
+
+
+def widen_at(text, offset, width, k=0):
+    """Replace the character at `offset` by a `width`-byte character."""
+    ch = WIDE[width][k % len(WIDE[width])]
+    return text[:offset] + ch + text[offset + 1:]
 
 
 def mutate(rng, text, donor=None):
@@ -130,6 +151,23 @@ def mutate(rng, text, donor=None):
                 us[k][1] = rng.choice([b for b in "()[]{}" if b != us[k][1]])
             else:
                 us.insert(i, [rng.choice(["open", "close"]), rng.choice("()[]{}"), ""])
+        elif op == "widen" and n:
+            # one to three ASCII letters of a string / identifier / comment become multi-byte characters
+            text_now = join(us)
+            cand = widen_positions(text_now)
+            if cand:
+                for _k in range(rng.choice([1, 1, 2, 3])):
+                    text_now = widen_at(text_now, rng.choice(cand), rng.choice([2, 3, 4]), rng.randrange(8))
+                us = units(text_now)
+        elif op == "bad_escape" and n:
+            strs = [k for k, u in enumerate(us) if u[0] == "string" and len(u[1]) >= 2]
+            if strs:
+                k = rng.choice(strs)
+                t = us[k][1]
+                at = rng.randrange(1, len(t))
+                us[k][1] = t[:at] + rng.choice(BAD_ESCAPES) + t[at:]
+            else:
+                us.insert(i, ["string", '"%s%s"' % (rng.choice(BAD_ESCAPES), rng.choice(["", "x", "é"])), " "])
         elif op == "splice" and donor:
             du = units(donor)
             if du:
@@ -287,6 +325,180 @@ def resource_catalogue():
     return c
 
 
+# ---- placement matrix: context-sensitive statements x container chains ---------------------------------------
+
+CONTAINERS = ["if", "else", "while", "from", "fn", "method", "ctor"]
+
+
+def wrap(container, body, level):
+    """`body` (text) inside one container; `level` keeps the names of nested containers apart."""
+    b = "\n".join("\t" + l for l in body.split("\n"))
+    if container == "if":
+        return "if true {\n%s\n}" % b
+    if container == "else":
+        return "if false {\n} else {\n%s\n}" % b
+    if container == "while":
+        return "w%d = 0\nwhile w%d < 1 {\n\tw%d = w%d + 1\n%s\n}" % (level, level, level, level, b)
+    if container == "from":
+        return "from 0 to 2, i%d {\n%s\n}" % (level, b)
+    if container == "fn":
+        return "f%d = fn() {\n%s\n}\nf%d()" % (level, b, level)
+    if container == "method":
+        return "class C%d {\n\tfn m(self) {\n%s\n\t}\n}" % (level, "\n".join("\t" + l for l in b.split("\n")))
+    if container == "ctor":
+        return ("class C%d {\n\tv: int\n\tconstructor(self) {\n\t\tself.v = 1\n%s\n\t}\n}"
+                % (level, "\n".join("\t" + l for l in b.split("\n"))))
+    raise ValueError(container)
+
+
+# statements whose legality depends on where they stand (plus two neutral controls)
+PLACED = [
+    ("break", "break"), ("continue", "continue"),
+    ("return_bare", "return "), ("return_value", "return 1"), ("return_nil", "return nil"),
+    ("import_std", "import mod"), ("import_names", "import a_val, f_fn from mod"), ("import_type", "import type T from mod"),
+    ("class", "class Z {\n\tv: int\n\tconstructor(self) { self.v = 1 }\n}\nz9 = Z()"),
+    ("type_alias", "type T9 int\nt9: T9 = 1"), ("export_type", "export type T8 int"),
+    ("export_var", "export e9: int = 1"), ("export_class", "export class E9 { }"),
+    ("modify", "modify a = 2"), ("modify_undeclared", "modify q9 = 2"), ("const_then_write", "const k9 = 1\nk9 = 2"),
+    ("assert", "assert a == 1"),
+    ("from_colliding_counter", "from 0 to 2, i1 {\n\tprint i1\n}"),
+    ("while_break_inner", "while true {\n\tbreak\n}"),
+    ("self_read", "print self"), ("self_field_write", "self.v = 3"), ("self_capture", "s9 = self"),
+    ("fn_returning_in_branch", "g9 = fn() -> int {\n\tif a == 1 {\n\t\treturn 1\n\t}\n\treturn 2\n}\nprint g9()"),
+    ("control_print", "print a"), ("control_assign", "b9 = a + 1"),
+]
+
+
+def container_chains(max_depth=3):
+    chains = [[]]
+    frontier = [[]]
+    for _ in range(max_depth):
+        frontier = [c + [k] for c in frontier for k in CONTAINERS]
+        chains += frontier
+    return chains
+
+
+# statements placed under the 343 depth-3 chains in the quick tier (all 25 in the thorough tier)
+CORE_PLACED = {"break", "continue", "return_bare", "return_value", "import_std", "class", "export_var", "modify",
+               "from_colliding_counter", "self_read", "self_field_write"}
+PLACE_ALL = [False]
+
+
+def placement_matrix():
+    """(id, files, entry): every PLACED statement under every container chain of depth <= 3 (outermost first);
+    quick tier: depth-3 chains carry the CORE_PLACED statements only."""
+    out = []
+    for chain in container_chains(3):
+        for name, stmt in PLACED:
+            if len(chain) == 3 and not PLACE_ALL[0] and name not in CORE_PLACED:
+                continue
+            body = stmt
+            for level in range(len(chain), 0, -1):
+                body = wrap(chain[level - 1], body, level)
+            out.append(("place:%s:%s" % ("/".join(chain) or "top", name),
+                        {"main.ms": "a = 1\n" + body + "\n", "mod.ms": MOD_MS}, "main.ms"))
+    return out
+
+
+# ---- non-ASCII text at every byte offset of a literal that takes a diagnostic path ---------------------------
+
+def escape_offset_family():
+    """For every byte offset L in 0..70 and character width 2/3/4: a string literal whose multi-byte character
+    starts at byte L of the literal's content, with an unknown escape sequence before or after it, as a print
+    operand, a call argument, a map key and next to comments."""
+    out = []
+    escapes = ["\\q", "\\x41", "\\ö"]
+    for L in range(0, 71):
+        for width in (2, 3, 4):
+            ch = WIDE[width][(L + width) % len(WIDE[width])]
+            for where in ("before", "after"):
+                esc = escapes[(L + width + (where == "after")) % 3]
+                if where == "before":
+                    head = esc + "a" * max(0, L - len(esc.encode()))
+                    if len(head.encode()) != L:
+                        head = "a" * L                  # no room for the escape before the character
+                        tail = esc
+                    else:
+                        tail = ""
+                    lit = head + ch + "b" * 40 + tail
+                else:
+                    lit = "a" * L + ch + "b" * 10 + esc + "c" * 30
+                lit = '"' + lit + '"'
+                for ctx, cname in enumerate(("print", "arg", "mapkey", "comments")):
+                    if ctx == 0:
+                        src = "print %s\n" % lit
+                    elif ctx == 1:
+                        src = "f = fn(t: str) -> str { return t }\nprint f(%s)\n" % lit
+                    elif ctx == 2:
+                        src = "m = map[str, int] { %s: 1 }\n" % lit
+                    else:
+                        src = "### ünïcode ✓ ### x = %s # trailing cömment \U0001f680\n" % lit
+                    out.append(("esc:%d:w%d:%s:%s" % (L, width, where, cname), {"main.ms": src}, "main.ms"))
+    return out
+
+
+# inputs that take a diagnostic path (one per kind of message known): bases for the sliding non-ASCII variants
+DIAGNOSTIC_BASES = [
+    'label = "some text here"\nprint lable + " and more text after it"\n',                       # undeclared variable
+    'number: int = "a string literal, not a number at all"\n',                                    # type mismatch
+    'value = "abc" - "a long string that cannot be subtracted"\n',                                # invalid operation
+    'const names = ["alpha", "beta"]\nnames[5]\n',                                                # index
+    'greet = fn(name: str) -> str { return "hello " + name }\nprint greet(42, "extra argument")\n',
+    'print "unterminated string literal\n',
+    'text = "bad escape \\q inside a longer string literal value"\n',
+    'import does_not_exist_module_name\n',
+    'class Person {\n\tname: str\n\tconstructor(self, name: str) { self.name = name }\n}\np = Person("Ann")\nprint p.nickname\n',
+    'opt: str? = nil\nprint opt + "suffix text"\n',
+    'm = map[str, int] { "first key": 1, "second key": "not an int" }\n',
+    'x = 5 # a comment with words\nif x { print "condition is not a bool" }\n',
+    'while "string condition" { }\n',
+    'from "a" to "z" { }\n',
+    'assert "this is not a boolean assertion"\n',
+    'return "outside of any function body"\n',
+    'f = fn() -> int { return "a string instead of an int" }\n',
+    'type Alias nosuchtype\nvalue: Alias = "x"\n',
+    '### block comment words ### y = = "double equals sign"\n',
+    'print typeof "some string" + 1\n',
+    'reserved = 1\nget = "keyword used as a name"\n',
+    'big = 99999999999999999999999999999999999999999999 # "too large"\n',
+    'byte_value = 0b101010101010 # more than eight bits in "a byte"\n',
+    'a = "x"\na.no_such_method("argument text", "more")\n',
+    'list: [int...] = ["strings", "in", "an", "int", "list"]\n',
+    'const c = "constant"\nc = "reassigned constant value"\n',
+    'break # "break" outside of a loop\n',
+    'modify undeclared_name = "text"\n',
+    'x = "abc" ?= "unwrap on a non optional"\n',
+    'obj = nil\nprint (obj).field_name_here\n',
+]
+
+
+def widen_family(base_id, files, entry, limit):
+    """Sliding non-ASCII variants of one input: an ASCII letter inside a string, identifier or comment becomes a
+    2-, 3- or 4-byte character, at up to `limit` evenly spread offsets."""
+    src = files[entry]
+    if isinstance(src, bytes):
+        return []
+    pos = widen_positions(src)
+    if not pos:
+        return []
+    step = max(1, len(pos) // limit)
+    out = []
+    for j, off in enumerate(pos[::step][:limit]):
+        width = (2, 3, 4)[j % 3]
+        f2 = dict(files)
+        f2[entry] = widen_at(src, off, width, j)
+        if len(f2[entry].encode()) <= MAX_BYTES + 8:
+            out.append(("wide:%s:@%d:w%d" % (base_id, off, width), f2, entry))
+    return out
+
+
+def widen_bases():
+    bases = [("diag%d" % i, {"main.ms": t, "mod.ms": MOD_MS}, "main.ms") for i, t in enumerate(DIAGNOSTIC_BASES)]
+    bases += pinned_catalogue()
+    bases += corpus_programs()
+    return bases
+
+
 # One pinned minimal input per crash signature found so far (see docs/notes_C19_C16.md).  While a defect is
 # open its pin reaches the signature deterministically, so a known-findings entry is observed at every seed;
 # once it is repaired (patch series c16fix 01-14) the same input stays here as a REGRESSION GUARD: the general
@@ -402,9 +614,18 @@ def classify(res, entry_text):
     return ("exit_%s" % res.rc, mask(both.strip()[-200:]), "")
 
 
-def compile_case(files, entry, cpu=CPU_FIRST, env=None):
-    r, _, _ = core.run_program(files, entry=entry, mode="compile", cpu=cpu, env=env, tag="c16")
-    return r
+def compile_case(files, entry, cpu=CPU_FIRST, env=None, raw=False):
+    """`mscript compile <entry> --quick` (binary output) or, with raw=True, the same with
+    `--output-format raw-text` (the human-readable writer) in a fresh scratch directory."""
+    if not raw:
+        r, _, _ = core.run_program(files, entry=entry, mode="compile", cpu=cpu, env=env, tag="c16")
+        return r
+    d = core.case_dir("c16")
+    try:
+        core.write_files(d, files)
+        return core.run(core.ms("compile", entry, "--quick", "--output-format", "raw-text"), d, env, cpu=cpu)
+    finally:
+        core.rm(d)
 
 
 def entry_text(files, entry):
@@ -434,6 +655,18 @@ def work(item):
     if kind == "cat":
         cat = resource_catalogue() + pinned_catalogue()
         cases = [("catalogue", cid, files, entry) for cid, files, entry in cat[seed:seed + n]]
+    elif kind == "place":
+        cases = [("placement_matrix", cid, files, entry) for cid, files, entry in placement_matrix()[seed:seed + n]]
+    elif kind == "place_raw":
+        # the same inputs through the human-readable writer (`--output-format raw-text`)
+        pm = [c for c in placement_matrix() if c[0].split(":")[1].count("/") < RAW_DEPTH[0]]
+        cases = [("placement_matrix_raw_text", cid + ":raw", files, entry, True) for cid, files, entry in pm[seed:seed + n]]
+    elif kind == "esc":
+        cases = [("escape_offset_family", cid, files, entry) for cid, files, entry in escape_offset_family()[seed:seed + n]]
+    elif kind == "wide":
+        for base_id, files, entry in widen_bases()[seed:seed + n]:
+            limit = 400 if base_id.startswith("diag") else WIDE_LIMIT[0]
+            cases += [("non_ascii_sliding", cid, f2, e2) for cid, f2, e2 in widen_family(base_id, files, entry, limit)]
     elif kind == "cover":
         g = grammar()
         for (rule, nid, k) in g.alts[seed:seed + n]:
@@ -470,8 +703,10 @@ def work(item):
                 res["edits"][e] = res["edits"].get(e, 0) + 1
             files[victim] = text
             cases.append(("mutated_corpus", "mut:%s:%d:%d" % (name, seed, i), files, entry))
-    for origin, cid, files, entry in cases:
-        r = compile_case(files, entry)
+    for case in cases:
+        origin, cid, files, entry = case[:4]
+        raw = len(case) > 4 and case[4]
+        r = compile_case(files, entry, raw=raw)
         et = entry_text(files, entry)
         c = classify(r, et)
         res["origin"][origin] = res["origin"].get(origin, 0) + 1
@@ -483,8 +718,10 @@ def work(item):
         res["cls"][r.cls] = res["cls"].get(r.cls, 0) + 1
         if r.cls == "fail":
             res["fail_diag"] += 1
+            if not et.isascii():
+                res["fail_diag_non_ascii"] = res.get("fail_diag_non_ascii", 0) + 1
         if len(et.strip()) > 0:
-            res["distinct"].add(core.h([files, entry]))
+            res["distinct"].add(core.h([files, entry, bool(raw)]))
         if r.cpu >= 2.0:
             res["slow"].append({"id": cid, "cpu_s": round(r.cpu, 2), "cls": r.cls})
         if len(res["samples"]) < 1 and origin != "catalogue" and 40 < len(et) < 400 and r.cls in ("ok", "fail"):
@@ -498,7 +735,7 @@ def work(item):
         lst = res["failures"].setdefault(key, [])
         size = sum(len(v) for v in files.values())
         lst.append({"id": cid, "origin": origin, "files": files, "entry": entry, "kind": c[0], "msg": c[1], "loc": c[2],
-                    "size": size, "run": r.brief()})
+                    "size": size, "run": r.brief(), "raw": bool(raw)})
         lst.sort(key=lambda w: w["size"])
         del lst[2:]
     res["cover"] = sorted(cover)
@@ -510,8 +747,8 @@ def work(item):
 _FRAME = re.compile(r"^\s*\d+:\s+(<?(?:compiler|bytecode|mscript)::.*)$", re.M)
 
 
-def first_repo_frame(files, entry):
-    r = compile_case(files, entry, cpu=60, env={"RUST_BACKTRACE": "1"})
+def first_repo_frame(files, entry, raw=False):
+    r = compile_case(files, entry, cpu=60, env={"RUST_BACKTRACE": "1"}, raw=raw)
     text = r.err + "\n" + r.out
     # the panic's own backtrace follows the last "stack backtrace:" line; an anyhow error printed inside the
     # panic message carries another one ("Stack backtrace:", capitalised) that must not be used
@@ -524,8 +761,8 @@ def first_repo_frame(files, entry):
     return sym
 
 
-def same_failure(files, entry, want):
-    r = compile_case(files, entry, cpu=CPU_FIRST)
+def same_failure(files, entry, want, raw=False):
+    r = compile_case(files, entry, cpu=CPU_FIRST, raw=raw)
     c = classify(r, entry_text(files, entry))
     if c is None:
         return False
@@ -622,6 +859,7 @@ def shrink(item):
     """Worker: minimise one failing input for its raw key, then name the first in-repo frame."""
     w, runs = item
     files, entry, want = dict(w["files"]), w["entry"], (w["kind"], w["msg"], w["loc"])
+    raw = bool(w.get("raw"))
     budget = Budget(runs)
 
     seen = {}
@@ -631,7 +869,7 @@ def shrink(item):
         if key not in seen:
             if not budget.spend():
                 return False
-            seen[key] = same_failure(cand, entry, want)
+            seen[key] = same_failure(cand, entry, want, raw)
         return seen[key]
     if want[0] not in ("cpu",):
         # drop the files that are not needed
@@ -670,13 +908,13 @@ def shrink(item):
             if join(tidy) != join(us) and test(tidy):
                 us = tidy
             files[name] = join(us)
-    frame = first_repo_frame(files, entry) if want[0].startswith("panic") else "-"
-    r = compile_case(files, entry, cpu=CPU_FIRST)
+    frame = first_repo_frame(files, entry, raw) if want[0].startswith("panic") else "-"
+    r = compile_case(files, entry, cpu=CPU_FIRST, raw=raw)
     c = classify(r, entry_text(files, entry))
     if want[0] == "stack_overflow" and c is not None:
         want = c
     return {"files": files, "entry": entry, "want": list(want), "frame": frame, "run": r.brief(),
-            "still": c is not None and c[0] == want[0], "origin": w["origin"], "id": w["id"],
+            "still": c is not None and c[0] == want[0], "origin": w["origin"], "id": w["id"], "raw": raw,
             "shrink_runs": runs - max(0, budget.left)}
 
 
@@ -693,11 +931,24 @@ def signature(kind, msg, frame_or_loc):
 
 # ----------------------------------------------------------------------------- engine
 
+RAW_DEPTH = [2]      # placement chains shallower than this also go through the raw-text writer
+WIDE_LIMIT = [12]    # sliding offsets per corpus/pin base
+
+
 def plan(ctx):
     g = grammar()
+    RAW_DEPTH[0] = ctx.n(2, 3)
+    PLACE_ALL[0] = not ctx.quick
+    WIDE_LIMIT[0] = ctx.n(12, 40)
     ncat = len(resource_catalogue()) + len(pinned_catalogue())
     items = [("cat", i, 8) for i in range(0, ncat, 8)]
     items += [("cover", i, 12) for i in range(0, len(g.alts), 12)]
+    n_place = len(placement_matrix())
+    items += [("place", i, 125) for i in range(0, n_place, 125)]
+    n_raw = len([c for c in placement_matrix() if c[0].split(":")[1].count("/") < RAW_DEPTH[0]])
+    items += [("place_raw", i, 125) for i in range(0, n_raw, 125)]
+    items += [("esc", i, 142) for i in range(0, len(escape_offset_family()), 142)]
+    items += [("wide", i, 6) for i in range(0, len(widen_bases()), 6)]
     base = ctx.seed * 1000003
     n_gen, n_mutgen, n_mutcorpus = ctx.n((8000, 4000, 12000), (60000, 30000, 110000))
     chunk = ctx.n(100, 250)
@@ -722,6 +973,7 @@ def run(ctx):
     failures = {}
     slow = []
     fail_diag = 0
+    fail_diag_wide = 0
     nbytes = 0
     pins = {}
     for item, (status, res) in zip(items, results):
@@ -733,6 +985,7 @@ def run(ctx):
         out.distinct.update(res["distinct"])
         cover.update(tuple(c) for c in res["cover"])
         fail_diag += res["fail_diag"]
+        fail_diag_wide += res.get("fail_diag_non_ascii", 0)
         pins.update(res["pins"])
         nbytes += res["bytes"]
         slow.extend(res["slow"])
@@ -755,7 +1008,7 @@ def run(ctx):
             if len(hangs) + len(slow_alone) >= 3:
                 out.inconclusive.append("CPU >= %d s on %s: not re-run (3 re-runs per run)" % (CPU_FIRST, w["id"]))
                 continue
-            r = compile_case(w["files"], w["entry"], cpu=CPU_ALONE)
+            r = compile_case(w["files"], w["entry"], cpu=CPU_ALONE, raw=bool(w.get("raw")))
             if r.cls == "cpu_timeout":
                 hangs.append((w, r))
             elif r.cls in ("wall_timeout", "spawn_error"):
@@ -780,7 +1033,7 @@ def run(ctx):
         if status != "ok":
             out.inconclusive.append("shrinking %s: %s" % (w["id"], str(s)[-300:]))
             s = {"files": w["files"], "entry": w["entry"], "want": [w["kind"], w["msg"], w["loc"]], "frame": "?",
-                 "run": w["run"], "still": True, "origin": w["origin"], "id": w["id"]}
+                 "run": w["run"], "still": True, "origin": w["origin"], "id": w["id"], "raw": bool(w.get("raw"))}
         kind, msg, loc = s["want"]
         sig = signature(kind, msg, s["frame"] if kind.startswith("panic") else (loc or "-"))
         size = sum(len(v) for v in s["files"].values())
@@ -793,7 +1046,9 @@ def run(ctx):
         out.violations.append(core.Violation(sig, what, {
             "files": s["files"], "entry": s["entry"], "kind": s["want"][0], "message": s["want"][1],
             "panic_location": loc, "first_repo_frame": s["frame"], "found_by": s["origin"], "found_in": s["id"],
-            "command": "mscript compile %s --quick" % s["entry"], "run": stable_run(s["run"])}))
+            "raw_text_output": bool(s.get("raw")),
+            "command": "mscript compile %s --quick%s" % (s["entry"], " --output-format raw-text" if s.get("raw") else ""),
+            "run": stable_run(s["run"])}))
 
     rules_cov = sorted(c[1] for c in cover if c[0] == "rule")
     alts_cov = {c[1:] for c in cover if c[0] == "alt"}
@@ -809,7 +1064,12 @@ def run(ctx):
         "rules_not_derived": missing_rules, "alternatives_not_derived": ["%s/%d/%d" % a for a in missing_alts],
         "rules_unreachable_from_file": [r for r in g.order if r not in reachable],
         "exit_classes": cls_tot, "inputs_by_origin": origin_tot, "token_edits_applied": edits_tot,
-        "failed_with_diagnostic": fail_diag, "mean_input_bytes": round(nbytes / max(1, out.evaluations), 1),
+        "failed_with_diagnostic": fail_diag, "diagnostics_on_inputs_with_non_ascii_text": fail_diag_wide,
+        "placement_matrix": {"statements": len(PLACED), "inputs": len(placement_matrix()),
+                             "statements_under_depth_3_chains": len(PLACED) if PLACE_ALL[0] else sorted(CORE_PLACED), "container_chains(depth<=3)": len(container_chains(3)),
+                             "containers": CONTAINERS, "also_raw_text_for_chains_shallower_than": RAW_DEPTH[0]},
+        "escape_offset_family": {"offsets": "0..70", "widths": [2, 3, 4], "contexts": 4, "inputs": len(escape_offset_family())},
+        "non_ascii_sliding_bases": len(widen_bases()), "mean_input_bytes": round(nbytes / max(1, out.evaluations), 1),
         "catalogue_shapes": len(resource_catalogue()), "pinned_crashers": len(PINNED),
         "regression_guards(further spellings)": len(GUARDS),
         "pinned_crashers_still_crashing": sum(1 for v in pins.values() if v),
@@ -821,7 +1081,11 @@ def run(ctx):
         "hangs": len(hangs),
     })
     out.rule = ("inputs <= 4 kB for `mscript compile main.ms --quick`: deterministic catalogue (resource shapes, import "
-                "fixtures, one pinned minimal input per known crash signature), one grammar sentence steered to every "
+                "fixtures, one pinned minimal input per known crash signature); placement matrix (25 context-sensitive "
+                "statements x all 400 container chains of depth <= 3 over if/else/while/from/function literal/method/"
+                "constructor, the shallow ones also with --output-format raw-text); escape-offset family (multi-byte "
+                "character at every byte offset 0..70 of a literal with an unknown escape, 4 contexts); sliding non-ASCII "
+                "variants of diagnostic-producing inputs, pins and corpus programs; one grammar sentence steered to every "
                 "alternative of grammar.pest, seeded grammar sentences (depth-bounded random walk, types ignored, name/"
                 "literal pools + a declaring prelude in ~55%), token-level mutants (delete/insert/duplicate/swap/"
                 "replace-by-other-class/truncate/unbalance/splice, 1-4 edits) of corpus programs, of grammar sentences "
@@ -867,7 +1131,7 @@ def replay(path):
             except UnicodeDecodeError:
                 files[os.path.relpath(p, root)] = raw
     entry = case["witness"].get("entry", "main.ms")
-    r = compile_case(files, entry, cpu=CPU_ALONE)
+    r = compile_case(files, entry, cpu=CPU_ALONE, raw=bool(case["witness"].get("raw_text_output")))
     c = classify(r, entry_text(files, entry))
     print(json.dumps({"run": r.brief(), "classified": c}, indent=1, ensure_ascii=False))
     return 0 if c is None else 1
